@@ -1,14 +1,20 @@
 #!/bin/bash
-# Re-apply every seeded change to /repo in turn and confirm that the property's quick check still reports it.
+# Re-apply every seeded change to a scratch worktree of /repo in turn and confirm that the property's quick check still
+# reports it (VERIF_REPO points the checks at the worktree; /repo itself is not touched; evidence goes to a scratch dir).
+# usage: tools_seed_regress.sh [tag ...]   (default: every directory under seeded/)
 cd /verif
+WT=/tmp/seed_regress_wt
+git -C /repo worktree remove --force $WT 2>/dev/null
+git -C /repo worktree add -q --detach $WT HEAD || exit 2
 ok=0; bad=0
-for d in seeded/C*/; do
-  tag=$(basename $d); id=${tag:0:3}
-  git -C /repo apply /verif/$d/patch.diff || { echo "$tag: patch does not apply"; bad=$((bad+1)); continue; }
-  out=$(VERIF_EVIDENCE_DIR=/tmp/seed/evidence ./bin/check $id --tier quick 2>&1); code=$?
-  git -C /repo checkout -- .
+tags=${@:-$(ls seeded)}
+for tag in $tags; do
+  id=${tag:0:3}
+  git -C $WT apply /verif/seeded/$tag/patch.diff || { echo "$tag: patch does not apply"; bad=$((bad+1)); continue; }
+  out=$(VERIF_REPO=$WT VERIF_EVIDENCE_DIR=/tmp/seed/evidence ./bin/check $id --tier quick 2>&1); code=$?
+  git -C $WT checkout -- .
   n=$(echo "$out" | grep -c "^VIOLATION property=$id")
   if [ $code -eq 1 ] && [ $n -ge 1 ]; then echo "$tag: caught ($n violation lines)"; ok=$((ok+1)); else echo "$tag: NOT caught (exit $code)"; echo "$out" | tail -3; bad=$((bad+1)); fi
 done
 echo "seeded changes caught: $ok, not caught: $bad"
-git -C /repo status --short | head -3
+git -C /repo worktree remove --force $WT
